@@ -7,6 +7,10 @@ props = [json.loads(l) for l in open(os.path.join(V, "properties.jsonl"))]
 ABM_TECH = "TLA+ spec (spec/Abm.tla) + TLC exhaustive invariants; TLC-generated behaviours (all short histories + long random ones) replayed into the implementation with the observation compared after every action"
 SRV_TECH = "TLA+ spec (spec/Server.tla) + TLC exhaustive invariants/action properties; TLC-generated request histories replayed into a real BptkServer (Flask test client, controlled clock, FileAdapter on a scratch directory) with every response compared"
 CHECKS = {
+ "C15": dict(cat="model_checking", ref="6/C15",
+    text="spec/Server.tla with the action Refused(kind, instance, credential) and the action property AuthOK (a refused request answers >= 400 and leaves clock, instance table, external store untouched), checked by TLC in every reachable server state; against the live app: every rule and method of the URL map (enumerated at run time) x 14 credential shapes that do not contain the token x 5 server states (no instances, instance without session, live session, locked session, externalised swept instance) x adapter on/off is sent with a body that would act when authorised, and a deep snapshot (instance table, session states, scenario settings, memo sizes, object identities, bytes of the state directory, destroy calls) is compared before/after; authorised controls prove the requests would have had an effect; TLC histories mixing authorised and refused requests are replayed",
+    note="refusal demanded only for credentials not containing the exact token as a space-delimited word; Flask's automatic OPTIONS response must change nothing but need not be a refusal",
+    tech=SRV_TECH + "; exhaustive route x method x credential x state table from the live URL map"),
  "C16": dict(cat="model_checking", ref="6/C16",
     text="spec/Server.tla: TLC checks the action property Isolated (a request addressed to one instance changes no other instance's memory or external state) and Continuity exhaustively for 2 instances; TLC-generated interleavings of begin (with/without settings, two scenarios), run-step, run-steps, results, end, keep-alive, stop over 2-3 instances are replayed on one server, every response compared with the spec and byte-for-byte with a solo replay of that instance's own requests on a fresh server",
     note="interleaving at request granularity; timeouts covered by C17; trusted: TLC, replay adapter, Flask test client",
